@@ -39,7 +39,7 @@ class C06(Engine):
     def setup(self):
         q = self.tier == "quick"
         self.pools = Pools(self.seed, n_gen=30 if q else 120, n_viol=30 if q else 120, n_cut=60 if q else 300,
-                           corpus_limit=None, tag="c06")
+                           corpus_limit=None, tag="c06", enc_family=True)
         self.pools.register()
 
     def prepare(self):
@@ -180,8 +180,16 @@ class C06(Engine):
                         (nm, "src"), (f"../src/{nm}", "other"), ("src", "."), (".", "src"), (f"src//{nm}", ".")]
             v, cwd = variants[r.randrange(len(variants))]
             opts = OPTSETS_CLI[r.randrange(len(OPTSETS_CLI))]
-            yield 4_000_000 + i, {"kind": "spelling", "tree": tree,
-                                  "ops": [{"op": "cli", "argv": list(opts) + [v], "cwd": cwd, "opts": list(opts)}]}
+            sc = {"kind": "spelling", "tree": tree,
+                  "ops": [{"op": "cli", "argv": list(opts) + [v], "cwd": cwd, "opts": list(opts)}]}
+            if i % 4 == 3:
+                # the same content under the same base name, reached through a symbolic link whose target is named otherwise
+                ext = nm[nm.rfind("."):]
+                sc["tree"] = {"store": {"zz_other_name" + ext: "@" + fid}, "src": {nm: "->../store/zz_other_name" + ext, "inner": {}}, "other": {}}
+                sc["named"] = {f"src/{nm}": fid}      # what the oracle compares: this path is a file of that name and content
+                if v in ("src", "."):
+                    sc["ops"][0]["argv"][-1] = f"src/{nm}" if cwd == "." else nm
+            yield 4_000_000 + i, sc
         # (e) rule-directory listing permutations (S1)
         n_perm = 8 if q else 64
         panel_n = 40
@@ -256,6 +264,8 @@ class C06(Engine):
     def refs_needed(self, sc):
         out = []
         tf = tree_files(sc["tree"]) if sc.get("tree") else []
+        if sc.get("named"):
+            tf = sorted(sc["named"].items())
         for op in sc["ops"]:
             if op["op"] == "api" and not op.get("no_compare"):
                 out.append(ref_api(sc, op["file"], op.get("debug", 0), op.get("R")))
@@ -271,6 +281,8 @@ class C06(Engine):
         ops = res["ops"]
         pristine = ops[0].get("state_before") if ops else None
         tf = dict(tree_files(sc["tree"])) if sc.get("tree") else {}
+        if sc.get("named"):
+            tf = dict(sc["named"])
         for i, (op, o) in enumerate(zip(sc["ops"], ops)):
             delta = state_delta(pristine, o.get("state_before"))
             if op["op"] == "api":
@@ -523,5 +535,5 @@ class C06(Engine):
 
 
 def self_name(sc):
-    tf = tree_files(sc["tree"])
+    tf = sorted(sc["named"].items()) if sc.get("named") else tree_files(sc["tree"])
     return os.path.basename(tf[0][0]) if tf else "?"
